@@ -78,8 +78,8 @@ def reports(sys_, diag=False):
         df, e, _ = H.quiet(f)
         rep[name] = ("exc", H.exc_name(e)) if e is not None else ("ok", df_rows(df, keys))
 
-    get("solve", sys_.solve, ["Component", "Phase"])
-    get("rail_rep", sys_.rail_rep, ["Rail", "Component", "Phase"])
+    # the configuration reports are taken BEFORE the solver-based ones, so that a solver call that writes into the
+    # system (limits, parameters, registries) shows up as a difference against a later snapshot
     get("params", lambda: sys_.params(limits=True), ["Component"])
     get("limits", sys_.limits, ["Component"])
     get("phases", sys_.phases, ["Component", "Active phase"])
@@ -91,6 +91,8 @@ def reports(sys_, diag=False):
         rep["save"] = ("exc", H.exc_name(e))
     else:
         rep["save"] = ("ok", canon_doc(json.load(open(path))))
+    get("solve", sys_.solve, ["Component", "Phase"])
+    get("rail_rep", sys_.rail_rep, ["Rail", "Component", "Phase"])
     if diag:
         from sysloss.diagram import make_diag
         from .c19 import parse_gv
